@@ -11,9 +11,8 @@ compares a region with the model or with the specification, and a regression sho
 VIOLATION.  `route` / `in_hang_region` are kept because a call in the hang region must be scheduled in a
 process of its own whenever the hang witness fails again.
 
-Open finding:
-  F-einsum-broadcast-one   einsum rejects an extent of 1 meeting a larger extent under the same label / the
-                           same `...` position ("Inconsistent shape for index"), which numpy.einsum broadcasts
+Open findings: none (F-einsum-broadcast-one, einsum rejecting an extent of 1 meeting a larger extent under
+the same label, is repaired by /repo 46d43d3).
 """
 from __future__ import annotations
 
@@ -187,9 +186,6 @@ def einsum_extents(case):
 
 
 def classify(name, case, msg):
-    if ACTIVE.get("F-einsum-broadcast-one") and case.get("op") in ("einsum", "einsum1") and msg.startswith(
-            "raised ValueError: Inconsistent shape for index") and "numpy returns" in msg:
-        ext = einsum_extents(case)
-        if ext and any(1 in e and len(e) > 1 for e in ext.values()):
-            return "F-einsum-broadcast-one"
+    # every C04 finding is repaired in /repo (fixed: lines in KNOWN_FINDINGS.txt): nothing is suppressed any more;
+    # the witnesses stay in the corpus of harness/c04.py and fail as ordinary violations if a defect returns
     return None
